@@ -318,3 +318,5 @@ def run(rep, program: Program, tier: str) -> None:
     rep.isolate(rule_r5, rep, program)
     # a derivative that updates a cached array in place is wrong from its second evaluation on (shared with C09-R9)
     rep.isolate(c09.rule_r9, rep, program, prop=PROP, rule="R6")
+    # a flow that reads a cached velocity which *is* another state's momentum array is not the flow of its own state (shared with C09-R8)
+    rep.isolate(c09.rule_r8, rep, program, prop=PROP, rule="R7")
